@@ -73,9 +73,35 @@ func lockOp(cc *ssa.CallCommon) (op, key string, ok bool) {
 	}
 	k, _, ok2 := cellKeyOfAddr(addr)
 	if !ok2 {
+		if lk := localLockKey(addr); lk != "" {
+			return op, lk, true
+		}
 		return op, "?", true
 	}
 	return op, k, true
+}
+
+// localLockKey names a mutex that is a local variable (possibly captured by closures): "local:<function>.<name>".
+func localLockKey(addr ssa.Value) string {
+	v := addr
+	for i := 0; i < 8; i++ {
+		switch x := v.(type) {
+		case *ssa.Alloc:
+			if x.Parent() == nil {
+				return ""
+			}
+			return "local:" + FnName(x.Parent()) + "." + x.Comment
+		case *ssa.FreeVar:
+			b := bindingOf(x)
+			if b == nil {
+				return ""
+			}
+			v = b
+		default:
+			return ""
+		}
+	}
+	return ""
 }
 
 // heldLocks computes, for every instruction of fn, the set of lock keys certainly held (must analysis).
